@@ -12,6 +12,7 @@ are compared with the initial ones.
 import copy
 import pickle
 
+import numpy as np
 from hypothesis import strategies as st
 
 from valjean.cosette.task import TaskStatus
@@ -507,9 +508,17 @@ def run_case(case):
     viewed = False
     view_then_read = False
     done = []
+    errstate0 = np.geterr()
     for idx, opn in enumerate(ops):
         step = f'step {idx} {_op_text(opn)} after [{", ".join(done)}]'
         name, raised = ses.apply(opn, step)
+        if np.geterr() != errstate0:
+            # process-wide numpy error handling changed by a read-only operation: evaluations
+            # that divide by a zero error (0/0 -> convention) would now raise -- "evaluating a
+            # test is deterministic and repeatable" no longer holds for what comes next
+            ses.fail('process_state', 'C13/process_state/numpy-errstate',
+                     f'{step}: numpy error handling changed from {errstate0} to {np.geterr()}')
+            np.seterr(**errstate0)
         done.append(_op_text(opn))
         out.labels.append(f'op:{name}')
         if name in ('repr', 'rst'):
